@@ -134,3 +134,17 @@ Lemma unknown_kind_proc v le o files pid ls k :
 Proof.
   intros H. unfold proc_net_connections, proc_net_connections_adds, proc_log. now rewrite (check_kind_bad k H).
 Qed.
+
+(* every synchronisation object net_connections() uses is re-created in a forked child (the table is empty on a
+   tree that keeps no lock) ... *)
+Lemma fork_sync_reinitialised : forallb (fun e => snd e) gen_fork_sync = true.
+Proof. reflexivity. Qed.
+(* ... so a forked child gets the answer of the model whatever the other threads of the parent were doing *)
+Lemma fork_child_answers {A} (held : bool) (o : outcome A) : in_forked_child held o = Answers o.
+Proof.
+  unfold in_forked_child, fork_stale_lock.
+  assert (E : existsb (fun e : bytes * bool => negb (snd e)) gen_fork_sync = false).
+  { pose proof fork_sync_reinitialised as H. induction gen_fork_sync as [|e l IH]; [reflexivity|].
+    cbn [forallb existsb] in *. apply andb_true_iff in H as [H1 H2]. rewrite H1, IH by exact H2. reflexivity. }
+  rewrite E, andb_false_r. reflexivity.
+Qed.
